@@ -81,14 +81,50 @@ def lake_build(targets):
     return rc, so + se
 
 
-def build_worker():
+WORKER_RACE = os.path.join(HARNESS, "bin", "vworker-race")
+
+
+def build_worker(race=False):
     gomod = open(os.path.join(HARNESS, "go.mod.tmpl")).read().replace("@REPO@", REPO)
     write_if_changed(os.path.join(HARNESS, "go.mod"), gomod)
     shutil.copyfile(os.path.join(REPO, "go.sum"), os.path.join(HARNESS, "go.sum"))
     rc, so, se = run(["go", "build", "-tags", "verif", "-o", WORKER, "./vworker"], cwd=HARNESS, env=GOENV)
     if rc != 0:
         return False, se + so
+    if race:
+        # the same worker under the race detector (kind "concurrent")
+        rc, so, se = run(["go", "build", "-race", "-tags", "verif", "-o", WORKER_RACE, "./vworker"], cwd=HARNESS, env=dict(GOENV, CGO_ENABLED="1"))
+        if rc != 0:
+            return False, se + so
     return True, ""
+
+
+def run_race_worker(cases):
+    """cases of kind "concurrent" on the race-detector build, one process per case: a reported race ends the process
+    (GORACE halt_on_error) and becomes the result of that case"""
+    out = []
+    env = dict(GOENV, GOTRACEBACK="none", GORACE="halt_on_error=1 exitcode=66")
+    for c in cases:
+        try:
+            p = subprocess.run([WORKER_RACE, "exec"], input=json.dumps(c) + "\n", env=env, stdout=subprocess.PIPE, stderr=subprocess.PIPE,
+                               text=True, timeout=120)
+        except subprocess.TimeoutExpired:
+            out.append({"fatal": "timeout under the race detector"})
+            continue
+        if "WARNING: DATA RACE" in (p.stderr or ""):
+            rep = [l.strip() for l in p.stderr.split("\n") if l.strip()]
+            frames = [l for l in rep if "go-ucfg" in l or "/repo/" in l][:6]
+            out.append({"race": " | ".join(frames)[:600] or rep[1][:200]})
+            continue
+        res = None
+        for l in (p.stdout or "").split("\n"):
+            if l.strip():
+                try:
+                    res = json.loads(l).get("res")
+                except Exception:
+                    pass
+        out.append(res if res is not None else {"fatal": "exit %s: %s" % (p.returncode, (p.stderr or "").strip().split("\n")[0][:160])})
+    return out
 
 
 # ---------------------------------------------------------------- running cases
@@ -96,6 +132,16 @@ def build_worker():
 def run_worker(cases, timeout_per_case=20):
     """Execute cases on the real code. Survives crashes of the worker process
     (fatal errors, stack overflow, OOM): the case that killed it gets a FATAL result."""
+    if any(c.get("k") == "concurrent" for c in cases):
+        idx = [i for i, c in enumerate(cases) if c.get("k") == "concurrent"]
+        rest = [c for c in cases if c.get("k") != "concurrent"]
+        rr = run_race_worker([cases[i] for i in idx])
+        other = run_worker(rest, timeout_per_case) if rest else []
+        merged, it = [], iter(other)
+        rmap = dict(zip(idx, rr))
+        for i in range(len(cases)):
+            merged.append(rmap[i] if i in rmap else next(it))
+        return merged
     results = [None] * len(cases)
     pos = 0
     env = dict(GOENV, GOMEMLIMIT="1GiB", GOTRACEBACK="none")
